@@ -492,6 +492,16 @@ class Assembler:
             self.fired.add('11:assumed-contract(external_body)')
             return
         self.fn_contract(s, fp, ed, spec, fnname, is_canary)
+        # 17: a `mut self` receiver (Verus: "does not yet support mut self"): `fn f(mut self, ..) { B }` becomes
+        # `fn f(self, ..) { let mut verif_self = self; B' }` where B' is B with every `self` token renamed to `verif_self`;
+        # contract clauses keep naming the parameter `self` (the value the caller passed)
+        if s.is_id(fp.k_popen + 1, 'mut') and s.is_id(fp.k_popen + 2, 'self'):
+            ed.delete(s.t[fp.k_popen + 1][1], s.t[fp.k_popen + 2][1])
+            ed.insert(s.t[fp.k_body_open][2], ' let mut verif_self = self; ', order=-1)
+            for k in range(fp.k_body_open + 1, fp.k_body_close):
+                if s.is_id(k, 'self'):
+                    ed.replace(s.t[k][1], s.t[k][2], 'verif_self')
+            self.fired.add('17:mut-self-receiver')
         self.body_edits(s, fp, ed)
         loops = fp.loops()
         for lp in spec.get('loop', []):
